@@ -1305,9 +1305,50 @@ func RunCursor(p *Prog, pkgpath string) *CursorResult {
 		crt := nodeResult(sites[f][0])
 		return crt != nil && types.Identical(rt, crt)
 	}
+	// a reader that is called at exactly one place, by another reader, is a piece of that reader written as a function
+	// of its own (`readMember(idl)` = the body of the member loop, `readAlias(idl)` = its `type` arm): where a reader is
+	// cut into functions is a matter of style, so such pieces are analysed as part of their caller
+	// (token readers and skippers - one string or truth value - are grammar elements of their own wherever they are used)
+	piece := func(f *ssa.Function) bool {
+		if os.Getenv("VLNOPIECES") != "" || f.Parent() != nil || !a.isCursorMethod(f) || len(sites[f]) != 1 || !a.isCursorMethod(sites[f][0]) {
+			return false
+		}
+		res := f.Signature.Results()
+		if res.Len() == 1 {
+			if _, isBasic := res.At(0).Type().Underlying().(*types.Basic); isBasic {
+				return false
+			}
+		}
+		return true
+	}
+	// a method of the cursor that neither reads nor moves it (`declare(kind, name)` keeping the set of member names)
+	// is bookkeeping of its callers
+	bookkeeping := func(f *ssa.Function) bool {
+		if f.Parent() != nil || !a.isCursorMethod(f) || len(f.Blocks) == 0 {
+			return false
+		}
+		for _, blk := range f.Blocks {
+			if blockInLoop(blk) {
+				return false
+			}
+			for _, in := range blk.Instrs {
+				switch x := in.(type) {
+				case *ssa.Call:
+					if t := x.Call.StaticCallee(); t != nil && a.isCursorMethod(t) {
+						return false
+					}
+				case *ssa.FieldAddr:
+					if isRecvField(x, nil, a.posIdx, a.cursorT) || isRecvField(x, nil, a.inIdx, a.cursorT) {
+						return false
+					}
+				}
+			}
+		}
+		return true
+	}
 	regular := func(f *ssa.Function) bool {
 		res := f.Signature.Results()
-		if continuation(f) {
+		if continuation(f) || piece(f) || bookkeeping(f) {
 			return false
 		}
 		if res.Len() == 1 {
